@@ -165,6 +165,9 @@ def main(argv=None):
     ti = 1 if tier == 'thorough' else 0
     t_start = time.time()
     os.makedirs(REPLAYS, exist_ok=True)
+    for fn in os.listdir(REPLAYS):          # replays of an earlier run of this property are stale
+        if fn.startswith(prop + '-'):
+            os.remove(os.path.join(REPLAYS, fn))
     findings = load_findings()
 
     # ------------------------------------------------------------------ 1. stub / oracle self-validation
